@@ -128,6 +128,18 @@ def stream_c(ctx):
                 one_case(ctx, s, N, retry, 100, True, form, 'C.nack-table')
 
 
+    # unsegmented table: an unsegmented object published under EXACTLY the fetched name (the answer to the CanBePrefix
+    # discovery Interest has the same name), one component below it, deeper; x shape of the fetched name x discovery
+    # losses (0, retry-1: delivered; retry: timeout) x retry_times; through the real pending-Interest table
+    for rel in H.WHOLE_RELS:
+        for base in H.unsegmented_bases():
+            for retry in (1, 3):
+                for lost in sorted({0, retry - 1, retry}):
+                    s = H.mk_scenario(rng, rng.choice([0, 2]), None, 'exact', H.fates_from({None: lost}), prefix_mode=0,
+                                      whole_rel=rel, base=base)
+                    one_case(ctx, s, s['nseg'], retry, 100, rng.choice([True, False]), 150, 'C.unsegmented-' + rel)
+
+
 def one_case(ctx, s, N, retry, lifetime, mbf, nack_form, stratum):
         M = ctx.call
         att = max(1, retry)
